@@ -1,7 +1,9 @@
 package rules
 
 import (
+	"fmt"
 	"go/token"
+	"go/types"
 	"regexp"
 	"strings"
 
@@ -392,6 +394,170 @@ func checkSCCWidth(c *core.Ctx, handlers []handlerRef) {
 			st.Ob(sh == nil)
 			if sh != nil {
 				c.ReportAt("R03.39", fn, bo.Pos(), "scc-from-64-bit-shift", core.FuncName(fn)+" decides SCC on a left shift carried out in 64 bits: for 0x80000000 << 1 the destination register receives 0 (the write keeps 32 bits) while SCC is set to 1; the ISA sets SCC from the 32-bit result")
+			}
+		}
+	}
+}
+
+// sliceLenOf: the length of a byte slice when it is fixed by construction (a storage read
+// of a constant size, an array sliced whole, a fixed-size conversion helper); -1 otherwise.
+func sliceLenOf(v ssa.Value, depth int) int64 {
+	if depth > 4 {
+		return -1
+	}
+	switch x := v.(type) {
+	case *ssa.Call:
+		if x.Call.IsInvoke() && x.Call.Method.Name() == "Read" && len(x.Call.Args) >= 1 {
+			if k, ok := core.ConstInt(x.Call.Args[len(x.Call.Args)-1]); ok {
+				return k
+			}
+		}
+		if cal := x.Call.StaticCallee(); cal != nil {
+			switch cal.Name() {
+			case "Uint32ToBytes":
+				return 4
+			case "Uint64ToBytes":
+				return 8
+			case "Uint16ToBytes":
+				return 2
+			case "Uint8ToBytes":
+				return 1
+			}
+		}
+	case *ssa.MakeSlice:
+		if k, ok := core.ConstInt(x.Len); ok {
+			return k
+		}
+	case *ssa.Slice:
+		if x.Low == nil && x.High == nil {
+			if pt, ok := x.X.Type().Underlying().(*types.Pointer); ok {
+				if at, ok := pt.Elem().Underlying().(*types.Array); ok {
+					return at.Len()
+				}
+			}
+			return sliceLenOf(x.X, depth+1)
+		}
+		if x.High != nil {
+			hi, ok1 := core.ConstInt(x.High)
+			lo := int64(0)
+			ok2 := true
+			if x.Low != nil {
+				lo, ok2 = core.ConstInt(x.Low)
+			}
+			if ok1 && ok2 {
+				return hi - lo
+			}
+		}
+	case *ssa.Phi:
+		n := int64(-2)
+		for _, e := range x.Edges {
+			k := sliceLenOf(e, depth+1)
+			if n == -2 {
+				n = k
+			} else if n != k {
+				return -1
+			}
+		}
+		if n >= 0 {
+			return n
+		}
+	}
+	return -1
+}
+
+// checkLoadWidths (R03.41): a load writes every dword of its destination.
+func checkLoadWidths(c *core.Ctx, handlers []handlerRef) {
+	st := c.Rule("R03.41", "a FLAT or DS load hands the destination as many bytes as the destination has registers (WriteOperandBytes(inst.Dst, lane, bytes) with 4 bytes per register of the mnemonic: sub-dword loads are zero- or sign-extended into a whole VGPR, dwordxN loads deliver 4N bytes): the register write copies just the bytes it is given, so a 2-byte slice for flat_load_ushort leaves bits 31..16 of the VGPR as they were", 20)
+	seen := map[string]bool{}
+	for _, h := range handlers {
+		want := int64(-1)
+		var iname string
+		for _, n := range h.insts {
+			bn := baseMnemonic(n)
+			switch {
+			case strings.HasPrefix(bn, "flat_load_"):
+				if _, dst, ok := flatExpected(bn); ok {
+					want, iname = dst*4, bn
+				}
+			case strings.HasPrefix(bn, "ds_read"):
+				if regs, ok := dsExpected(bn); ok && regs[2] > 0 {
+					want, iname = regs[2]*4, bn
+				}
+			}
+		}
+		key := h.alu.pkg + "." + h.name
+		if want < 0 || seen[key] {
+			continue
+		}
+		seen[key] = true
+		fn := c.SSAFunc(h.alu.pkg, h.alu.typ+"."+h.name)
+		if fn == nil {
+			continue
+		}
+		for _, b := range fn.Blocks {
+			for _, in := range b.Instrs {
+				name, cc := stateMethod(in)
+				if name != "WriteOperandBytes" || operandFieldName(cc.Args[0]) != "Dst" {
+					continue
+				}
+				n := sliceLenOf(cc.Args[2], 0)
+				if n < 0 {
+					continue
+				}
+				st.Instances++
+				c.MarkAnalysed(fn)
+				st.Ob(n == want)
+				if n != want {
+					c.ReportAt("R03.41", fn, in.Pos(), "load-bytes:"+iname, fmt.Sprintf("%s (%s) writes %d byte(s) to its destination, which has %d: the register write copies only the bytes it is given, so the rest of the destination keeps its previous contents instead of the extension / the loaded dwords", core.FuncName(fn), iname, n, want))
+				}
+			}
+		}
+	}
+}
+
+// checkWideMultiply (R03.42): a product that is wider than its factors is formed in the wide type.
+func checkWideMultiply(c *core.Ctx, handlers []handlerRef) {
+	st := c.Rule("R03.42", "instructions whose result keeps more bits of a product than one factor has (v_mad_u64_u32 / v_mad_i64_i32: the full 64-bit product; v_mul_hi_*: its upper half) multiply in a 64-bit type: every multiplication of operand values in their handlers has a 64-bit result type. A product formed in 32 bits is truncated before it is widened, so every product of 2^32 or more is wrong", 4)
+	wide := regexp.MustCompile(`^(v_mad_[ui]64_[ui]32|[sv]_mul_hi_[ui]32(_[ui]24)?|v_mul_hi_[ui]32_[ui]24)$`)
+	seen := map[string]bool{}
+	for _, h := range handlers {
+		var iname string
+		for _, n := range h.insts {
+			if wide.MatchString(baseMnemonic(n)) {
+				iname = baseMnemonic(n)
+			}
+		}
+		key := h.alu.pkg + "." + h.name
+		if iname == "" || seen[key] {
+			continue
+		}
+		seen[key] = true
+		fn := c.SSAFunc(h.alu.pkg, h.alu.typ+"."+h.name)
+		if fn == nil {
+			continue
+		}
+		fromOperand := func(v ssa.Value) bool {
+			return dependsOn(v, func(x ssa.Value) bool {
+				if in2, ok := x.(ssa.Instruction); ok {
+					n, _ := stateMethod(in2)
+					return n == "ReadOperand"
+				}
+				return false
+			}, map[ssa.Value]bool{})
+		}
+		for _, b := range fn.Blocks {
+			for _, in := range b.Instrs {
+				bo, ok := in.(*ssa.BinOp)
+				if !ok || bo.Op != token.MUL || !fromOperand(bo.X) || !fromOperand(bo.Y) {
+					continue
+				}
+				st.Instances++
+				c.MarkAnalysed(fn)
+				okW := c.Sizeof(bo.Type()) >= 8
+				st.Ob(okW)
+				if !okW {
+					c.ReportAt("R03.42", fn, bo.Pos(), "product-in-32-bits:"+iname, fmt.Sprintf("%s (%s) multiplies two operand values in %s: the product is truncated to 32 bits before it is widened / shifted, so 0x10000 * 0x10000 contributes 0 instead of 2^32", core.FuncName(fn), iname, bo.Type()))
+				}
 			}
 		}
 	}
